@@ -13,8 +13,10 @@ def main(tier, replay):
     shapes = [(s, n) for s, n in progs.grammar_shapes(3 if quick else 4) if any(m[0] == 'G' for m in s)]
     # quick: every shape with <= 3 nodes that has a group (117); thorough: <= 4 nodes
     G = {}
+    gnodes = {}
     for i, (s, n) in enumerate(shapes):
         G['g%03d' % i] = progs.shape_program('g%03d' % i, s)
+        gnodes['g%03d' % i] = n
     allp = dict(P)
     allp.update(G)
     mod, infos = setup_programs(c, allp, TEMPLATES)
@@ -55,7 +57,7 @@ def main(tier, replay):
             continue
         # one free record (lists <= 2) followed by a fixed-structure one: all nesting combinations, at a bounded path count
         J('gram-%s-1n1f' % n, n, [1, 1, 0, 2, 1, 0, 1, 0])
-        if not quick:
+        if not quick and gnodes[n] <= 3:
             J('gram-%s-2n' % n, n, [2, 0, 0, 2, 1, 0, 1, 0])
     first = len(c.jobs)
     out = run_program_jobs_batched(c, mod, infos, jobs, batch=200)
